@@ -32,6 +32,8 @@ import (
 	"encoding/json"
 	"strconv"
 	"strings"
+
+	"verifharness/internal/bip39ref"
 )
 
 type needle struct {
@@ -221,4 +223,48 @@ func (s *scanner) addMnemonic(words []string) {
 			s.add(tag+":"+ws.name, []byte(strings.Join(words[i:i+wordWindow], ws.sep)))
 		}
 	}
+}
+
+// mnemonicLikeRun: the longest run of consecutive BIP-39 list words in a text (tokens = maximal
+// letter runs; any other token ends a run). A secret the harness cannot know — the sentence of a
+// wallet whose CREATION failed is never handed out — still shows as such a run in an error text.
+// Ordinary error prose has short runs ("master private key": 3); 6 or more is reported.
+const wordRunThreshold = 6
+
+var bip39Word = func() map[string]bool {
+	m := map[string]bool{}
+	for _, w := range bip39ref.English {
+		m[w] = true
+	}
+	return m
+}()
+
+func mnemonicLikeRun(text []byte) int {
+	best, run := 0, 0
+	i := 0
+	for i < len(text) {
+		c := text[i]
+		letter := func(c byte) bool { return c >= 'a' && c <= 'z' || c >= 'A' && c <= 'Z' }
+		if !letter(c) {
+			if c >= '0' && c <= '9' {
+				run = 0
+			}
+			i++
+			continue
+		}
+		j := i
+		for j < len(text) && letter(text[j]) {
+			j++
+		}
+		if bip39Word[strings.ToLower(string(text[i:j]))] {
+			run++
+			if run > best {
+				best = run
+			}
+		} else {
+			run = 0
+		}
+		i = j
+	}
+	return best
 }
